@@ -18,6 +18,7 @@ type Engine struct {
 	globals map[*ssa.Global]*Value
 	// path state
 	dec     []int
+	opts    [][]int
 	max     []int
 	checked []bool
 	pos     int
@@ -48,6 +49,9 @@ type Engine struct {
 	allocBudget   int64
 	hooks         map[string]Value
 	sch           *sched
+	curFn         string
+	assumeCache   map[string]bool
+	assumeN       int
 	switchBudget  int
 	killAck       chan struct{}
 	schedLog      []int
@@ -83,7 +87,8 @@ func newEngine(prog *ssa.Program) *Engine {
 }
 
 func (e *Engine) resetRun() {
-	e.dec, e.max, e.checked = nil, nil, nil
+	e.dec, e.max, e.checked, e.opts = nil, nil, nil, nil
+	e.assumeCache = map[string]bool{}
 	e.Paths, e.Unknowns = 0, 0
 	e.FuncsSeen = map[string]bool{}
 	e.StubsSeen = map[string]bool{}
@@ -97,6 +102,7 @@ func (e *Engine) resetRun() {
 
 func (e *Engine) beginPath() {
 	e.pos = 0
+	e.assumeN = 0
 	e.inputs = nil
 	e.kinds = nil
 	e.axioms = nil
@@ -147,44 +153,47 @@ func (e *Engine) feasible(c Term) bool {
 	return true // sat or unknown: keep
 }
 
-// choose resolves an n-way decision; cond(i) is the constraint for option i.
+// choose resolves an n-way decision; cond(i) is the constraint for option i.  On the first visit the
+// feasibility of every option is decided at once (one query each); the DFS then only iterates over the
+// feasible ones, so no re-execution is wasted on an infeasible alternative.
 func (e *Engine) choose(n int, cond func(i int) Term) int {
 	if e.pos < len(e.dec) {
-		if !e.checked[e.pos] {
-			found := false
-			for c := e.dec[e.pos]; c < e.max[e.pos]; c++ {
-				if e.feasible(cond(c)) {
-					e.dec[e.pos] = c
-					e.checked[e.pos] = true
-					found = true
-					break
-				}
-			}
-			if !found {
-				e.dec[e.pos] = e.max[e.pos] // exhausted
-				panic(infeasible{})
-			}
+		opts := e.opts[e.pos]
+		k := e.dec[e.pos]
+		if k >= len(opts) {
+			panic(infeasible{})
 		}
-		c := e.dec[e.pos]
+		c := opts[k]
 		e.pos++
 		e.assume(cond(c))
 		return c
 	}
+	var opts []int
 	for i := 0; i < n; i++ {
 		if e.feasible(cond(i)) {
-			e.dec = append(e.dec, i)
-			e.max = append(e.max, n)
-			e.checked = append(e.checked, true)
-			e.pos++
-			e.assume(cond(i))
-			return i
+			opts = append(opts, i)
 		}
 	}
-	panic(infeasible{})
+	if len(opts) == 0 {
+		if os.Getenv("GOSYM_DEBUG") != "" {
+			fmt.Fprintf(os.Stderr, "infeasible (no option of %d feasible) in %s\n", n, e.curFn)
+		}
+		panic(infeasible{})
+	}
+	e.dec = append(e.dec, 0)
+	e.max = append(e.max, len(opts))
+	e.checked = append(e.checked, true)
+	e.opts = append(e.opts, opts)
+	e.pos++
+	e.assume(cond(opts[0]))
+	return opts[0]
 }
 func (e *Engine) assume(c Term) {
 	if c.IsConst() {
 		if c.False() {
+			if os.Getenv("GOSYM_DEBUG") != "" {
+				fmt.Fprintf(os.Stderr, "infeasible (assume false) in %s\n", e.curFn)
+			}
 			panic(infeasible{})
 		}
 		return
@@ -199,7 +208,7 @@ func (e *Engine) nextPath() bool {
 		if e.dec[l] < e.max[l] {
 			return true
 		}
-		e.dec, e.max, e.checked = e.dec[:l], e.max[:l], e.checked[:l]
+		e.dec, e.max, e.checked, e.opts = e.dec[:l], e.max[:l], e.checked[:l], e.opts[:l]
 	}
 	return false
 }
@@ -307,6 +316,9 @@ func (e *Engine) concretizeSampled(t Term, smallMax int64, nLarge int) int {
 		v, ok := nextVal(k)
 		if !ok {
 			e.dec[e.pos] = e.max[e.pos]
+			if os.Getenv("GOSYM_DEBUG") != "" {
+				fmt.Fprintf(os.Stderr, "infeasible (concretize exhausted) in %s\n", e.curFn)
+			}
 			panic(infeasible{})
 		}
 		e.checked[e.pos] = true
@@ -321,6 +333,7 @@ func (e *Engine) concretizeSampled(t Term, smallMax int64, nLarge int) int {
 	e.dec = append(e.dec, 0)
 	e.max = append(e.max, maxVals)
 	e.checked = append(e.checked, true)
+	e.opts = append(e.opts, nil)
 	e.pos++
 	e.assume(Eq(t, BV(t.W, int64(v))))
 	return v
@@ -463,6 +476,7 @@ func (e *Engine) runFunction(fn *ssa.Function, args []Value, env []Value) (res V
 		unsupported("no body: %s", fn.String())
 	}
 	e.FuncsSeen[fn.String()] = true
+	e.curFn = fn.String()
 	e.depth++
 	if e.depth > 400 {
 		unsupported("call depth")
